@@ -64,12 +64,14 @@ CLAIMS = {
    note=TB + "an exception would be a SHAKE256 collision; tuple count per run is stated in the evidence.",
    tech="Lean 4 proof of hint-bit sensitivity and encoding injectivity + exhaustive single-bit mutation of sampled valid tuples on the crate"),
  'C08': dict(cat='proof', ref='DESIGN 5 C08',
-   text="Partial proof + differential execution. Proved in Lean for all byte strings: decoded response coefficients lie in the encoder's domain, whatever BitUnpack accepts is in [-a, b]; by kernel evaluation over complete reduced "
-        "parameter spaces ((k,omega) = (1,2), (2,2), alphabet {0,1,2,3,255}) every hint section is either rejected or re-encodes to itself and never faults (finite tables, labelled as such). Not proved for the real parameters: "
-        "hintUnpack y = some h <-> y = hintPack h and the BitPack/BitUnpack bijection; decided on every run against a bit-level FIPS 204 reference: decode/re-encode of honest and forged signatures, every class of hint malformation, "
-        "range-end vectors and random strings for each (a,b) in use, exhaustive reduced-parameter enumeration, key codecs.",
+   text="Lean theorems for every byte string, at full parameters, both build modes: (1) for each parameter set, every signature byte string that sig_decode accepts is reproduced byte for byte by sig_encode of the decoded (c~, z, h), hence two "
+        "different byte strings are never read as the same signature; (2) bit_pack(bit_unpack(v)) = v for every accepted v and bit_unpack(bit_pack(w)) = w for every in-range w, for every (a, b) with a + b < 2^bitlen - a bijection "
+        "(value-tracking accumulator invariants on both sides + uniqueness of fixed-length little-endian representations); (3) hint_bit_pack(hint_bit_unpack(y)) = y for every accepted hint section, and acceptance implies strictly "
+        "increasing (hence non-repeating) indices per polynomial, non-decreasing counts at most omega, and zero padding (lock-step induction over decoder and encoder loops). Reduced-parameter hint tables by kernel evaluation are "
+        "kept as labelled tests. On every run the same facts are cross-checked by execution against a bit-level FIPS 204 reference: decode/re-encode of honest and forged signatures, every class of hint malformation, range-end vectors "
+        "and random strings for each (a,b) in use, exhaustive reduced-parameter enumeration, key codecs.",
    note=TB + "checks/ref/mldsa.py implements Algorithms 9-21 bit by bit (IntegerToBits / BitsToBytes), independent of the crate's streaming accumulators.",
-   tech="Lean 4 proof of decoder range facts + kernel-evaluated reduced-parameter tables + differential execution against a bit-level reference"),
+   tech="Lean 4 round-trip / bijection theorems for sig_decode/sig_encode, bit_pack/bit_unpack and the hint codec (accumulator invariants, induction) + differential execution against a bit-level reference"),
  'C09': dict(cat='proof', ref='DESIGN 5 C09',
    text="Partial proof + differential execution. Proved in Lean: **every** byte string of public-key length deserialises successfully in both build modes (no rejection, no overflow, no out-of-bounds in the decoder and the verifier precompute), field provenance of deserialised keys (rho / K / tr are the input slices, pk.tr = H(input)), and every accepted private key has its s1, s2, t0 sections inside the ranges the "
         "serialiser asserts. Not proved: into_bytes . try_from_bytes = id for every input (exact NTT inversion composed with the codecs); decided on every run on all-00 / all-FF / t1 = 1023 / random public keys, private keys with every "
@@ -78,8 +80,8 @@ CLAIMS = {
    tech="Lean 4 proof of field provenance and range facts + byte-exact and struct-exact round trips on extremal and random keys"),
  'C10': dict(cat='proof', ref='DESIGN 5 C10',
    text="Lean theorems for all byte strings (repaired tree): whatever bit_unpack accepts lies in [-a, b]; every private key accepted by sk_decode / expand_private has all s1, s2 coefficients in [-eta, eta] and t0 in [-2^12+1, 2^12], "
-        "which are exactly the ranges sk_encode's self-checks demand; sk_decode never faults on any byte string of private-key length (accumulator-invariant induction over the bytes: temp < 2^bit_index, bit_index < bitlen after each byte, so no shift, subtraction or index can fault). The pinned-tree definition is refuted by kernel evaluation on a concrete accepted field (F1) and the repaired one rejects it. The converse (all-in-range strings are "
-        "accepted and re-serialise identically) is decided by execution over every out-of-range field value at the structural position classes, multi-field and random strings.",
+        "which are exactly the ranges sk_encode's self-checks demand; sk_decode never faults on any byte string of private-key length (accumulator-invariant induction over the bytes: temp < 2^bit_index, bit_index < bitlen after each byte, so no shift, subtraction or index can fault). The pinned-tree definition is refuted by kernel evaluation on a concrete accepted field (F1) and the repaired one rejects it. Both directions of the property are a theorem: for each parameter set and every byte string of private-key length, sk_decode returns Ok exactly when every bitlen(2 eta)-bit field of the s1 and s2 sections is at most 2 eta, and Err otherwise (sk_decode_accepts_exactly_the_in_range_keys). "
+        "Execution over every out-of-range field value at the structural position classes, multi-field and random strings cross-checks model and crate on every run.",
    note=TB + "F1 was a genuine defect, repaired in /repo by fix: 1e88610.",
    tech="Lean 4 proof by unfolding the decoder + kernel-evaluated refutation of the pinned definition + per-field differential execution"),
  'C11': dict(cat='proof', ref='DESIGN 5 C11',
